@@ -106,6 +106,10 @@ Step1 ==
                   v2 == Check(lost = {}, "AcceptedRunsExactlyOnce", lost, v1)
               IN Same(v2)
          [] e.ev = "StopReq" -> Step(lc, loopg, hs, pend, req, [eng EXCEPT !.stopReq = TRUE, !.bootStop = (@ \/ e.src = "OnBoot")], viols)
+         [] e.ev = "StopRet" ->
+              \* Stop returns nil only after the engine has fully shut down
+              LET open == {c \in DOMAIN lc : lc[c].life = "open"} IN
+              Same(Check(e.err # "nil" \/ (open = {} /\ eng.onShutdown = 1), "StopNilOnlyAfterFullShutdown", <<open, eng.onShutdown>>, viols))
          [] e.ev = "OnShutdown" ->
               Step(lc, loopg, hs, pend, req, [eng EXCEPT !.onShutdown = @ + 1],
                    Check(eng.onShutdown = 0, "OnShutdownOnce", eng.onShutdown + 1, Final(viols, "OnShutdown")))
